@@ -712,6 +712,7 @@ class SymEx:
                     ls.why = 'iterator loop over different ranges'
         isym = sym('%s@L%d' % (self.loop_var_name(s), ls.id))
         ls.idx, ls.lo, ls.hi = isym, lo, hi
+        ls.pc = tuple(st.pc)
         if lo is not None and hi is not None:
             T.RANGES[isym] = (lo, hi)
 
